@@ -204,8 +204,13 @@ class MultiStatesLookup(_MultikeyWithVersionLookup):
         self.handle_version_lookup[obj.Handle] = obj.StateVersion
 
     def set_version(self, obj: AbstractMultiStateContainer):
-        """Set StateVersion of obj if state with same handle existed before."""
+        """Set StateVersion of obj if state with same handle existed before (or still exists)."""
         version = self.handle_version_lookup.get(obj.Handle)
+        # A state that is deleted in the running transaction (together with its descriptor) is still in the table, its
+        # version is saved only when it is removed during the commit. A new state with the same handle must not reuse it.
+        existing = self.handle.get_one(obj.Handle, allow_none=True)
+        if existing is not None and existing is not obj and (version is None or existing.StateVersion > version):
+            version = existing.StateVersion
         if version is not None:
             obj.StateVersion = version + 1
 
